@@ -76,4 +76,56 @@ def Iter.len (it : Iter) : Nat := it.bytes.length % 65536
 
 def Iter.isEmpty (it : Iter) : Bool := it.bytes.isEmpty
 
+/-- Fuelled iteration through the panic-aware `nextP`: the `for item in tlvs` loop with a
+step cap, panicking as soon as one `next` call would. -/
+def Iter.runP : Nat → Iter → Outcome (List Item)
+  | 0, _ => .val []
+  | fuel + 1, it =>
+    match it.nextP with
+    | .panic => .panic
+    | .val none => .val []
+    | .val (some (item, it')) =>
+      match Iter.runP fuel it' with
+      | .panic => .panic
+      | .val rest => .val (item :: rest)
+
+/-- `k` successful calls of `next` in a row: the state they leave behind, `none` if one of
+them returned `None`. -/
+def Iter.iterate : Nat → Iter → Option Iter
+  | 0, it => some it
+  | k + 1, it =>
+    match it.next with
+    | none => none
+    | some (_, it') => Iter.iterate k it'
+
+/-- `Iterator::next` as a state transformer: the item (if any) **and the state left behind
+in every case**, transcribed branch by branch from `src/v2/model.rs:237-264`. On the
+`None` path the Rust returns before touching `self.offset`, so the state is unchanged;
+on the two error paths `self.offset = self.bytes.len()`; on the item path
+`self.offset += tlv_length`. (`Iter.next` has no successor state on `none`; this function
+makes "polling again after `None`" expressible. `C11.step_eq_next` relates the two.) -/
+def Iter.step (it : Iter) : Option Item × Iter :=
+  if it.offset ≥ it.bytes.length then (none, it)
+  else
+    let remaining := it.bytes.drop it.offset
+    if remaining.length < minTlvLen then
+      (some (.error (.leftovers it.bytes.length)), { it with offset := it.bytes.length })
+    else
+      let tlvType := byteAt remaining 0
+      let length := be16 (byteAt remaining 1) (byteAt remaining 2)
+      let tlvLength := minTlvLen + length
+      if remaining.length < tlvLength then
+        (some (.error (.invalidTLV tlvType length)), { it with offset := it.bytes.length })
+      else
+        (some (.ok { kind := tlvType, value := (remaining.take tlvLength).drop minTlvLen }),
+         { it with offset := it.offset + tlvLength })
+
+/-- Poll `k` times, keeping the state after every call (also after `None`). -/
+def Iter.poll : Nat → Iter → List (Option Item) × Iter
+  | 0, it => ([], it)
+  | k + 1, it =>
+    let (i, it') := it.step
+    let (is, it'') := Iter.poll k it'
+    (i :: is, it'')
+
 end V2
